@@ -38,7 +38,14 @@ def _is_rng_root(t):
 
 
 def _caller_data(t):
-    return t in (("var", "X"), ("var", "y"))
+    """the caller's arrays, or what scikit-learn validation returns for them (which may be the same array)"""
+    if t in (("var", "X"), ("var", "y")):
+        return True
+    if isinstance(t, tuple) and t[:1] == ("callres",) and t[2] in ("check_array", "validate_data", "np.asarray", "np.array"):
+        return any(_caller_data(a) for a in t[3][:2]) and dict(t[4]).get("copy") != ("const", True)
+    if isinstance(t, tuple) and t[:1] == ("item",):
+        return False
+    return False
 
 
 def fit_obligations():
@@ -85,6 +92,15 @@ def fit_obligations():
                     if a.endswith("_") or a.startswith("_") and not a.startswith("_parameter") and not a.startswith("_validate") and not a.startswith("_get") \
                             and not callable(getattr(cls, a, None)):
                         pre_reads.add(a)
+        for st in sts:
+            stored = set()
+            for e in st.events:
+                if e[0] == "store" and e[1] == SELF:
+                    stored.add(e[2])
+                if e[0] == "call" and e[2] in ("hasattr", "getattr") and len(e[3]) >= 2 and e[3][0] == SELF and fx.is_const(e[3][1]):
+                    a = e[3][1][1]
+                    if isinstance(a, str) and a not in hp and (a.endswith("_") or a.startswith("_")) and a not in stored:
+                        pre_reads.add(f"{e[2]}(self, {a!r})")
         pre_reads -= {"n_features_in_"} if cls.__name__ != "Kauri" else set()
         ob("no fitted attribute or retained state is read before it is written in the same call (history independence)",
            not pre_reads, {"read before written": sorted(pre_reads)})
@@ -189,9 +205,23 @@ def native_histories(seed, tier):
     def same(a, b):
         return len(a) == len(b) and all(np.array_equal(u, v) for u, v in zip(a, b))
     for f in mk:
+        name = type(f()).__name__
+        try:
+            obs.append(_history_one(f, name, X1, X2, state, same))
+        except Exception as e:
+            import traceback
+            obs.append(Ob(f"{name}: same fitted state after different call histories, on a clone, and inputs / hyper-parameters untouched", REFUTED,
+                          "native", "B", {"exception": repr(e), "traceback": traceback.format_exc(limit=5), "replayed": True}, fn=f"{name}.fit"))
+    return obs
+
+
+def _history_one(f, name, X1, X2, state, same):
+    import warnings
+    import numpy as np
+    from sklearn.base import clone
+    if True:
         with warnings.catch_warnings():
             warnings.simplefilter("ignore")
-            name = type(f()).__name__
             ref = state(f().fit(X1))
             Xc = X1.copy()
             ok = True
@@ -217,6 +247,5 @@ def native_histories(seed, tier):
             m.predict(X1)
             m.score(X1)
             ok &= np.array_equal(X1, Xc) or why.append("input array modified") is None and False
-        obs.append(Ob(f"{name}: same fitted state after different call histories, on a clone, and inputs / hyper-parameters untouched", PROVED if ok else REFUTED,
-                      "native", "B", {"failed": why, "replayed": True}, fn=f"{name}.fit"))
-    return obs
+        return Ob(f"{name}: same fitted state after different call histories, on a clone, and inputs / hyper-parameters untouched", PROVED if ok else REFUTED,
+                  "native", "B", {"failed": why, "replayed": True}, fn=f"{name}.fit")
